@@ -201,8 +201,9 @@ func (m *Machine) callFunction(fn *ssa.Function, args []Value, env []Value, call
 	if fn.Pkg != nil && !m.interpPkg(fn.Pkg.Pkg.Path()) && !m.allowFn(fn) {
 		m.unsupported("call into non-interpreted package: " + fn.String())
 	}
-	if m.depth > 200 {
-		m.unsupported("call depth exceeded")
+	if m.depth > 400 {
+		// deeper than anything the code under test does on inputs of this size: unbounded recursion
+		panic(&pathEnd{endBudget, "call depth 400 exceeded in " + fn.String() + " (unbounded recursion?)"})
 	}
 	if m.opts.summaries && m.local == nil {
 		if r, ok := m.trySummary(fn, args, env, caller); ok {
